@@ -3,7 +3,8 @@
 From SSL.Model Require Import Base Ty Float Value Ops Syntax.
 
 Definition oty := outcome ty.
-Definition lift_opt (o : option ty) : oty := match o with Some t => Ok t | None => Panic end.
+(* `.unwrap_or(Type::Never)`: an operand of type `!` never yields a value, so the operation has type `!` *)
+Definition lift_opt (o : option ty) : oty := match o with Some t => Ok t | None => Ok TNever end.
 
 Definition bin_rt (op : binop) (l r : ty) : oty :=
   match op with
@@ -12,10 +13,10 @@ Definition bin_rt (op : binop) (l r : ty) : oty :=
   | Subtract | Multiply | Divide | Pow | Filter | BitwiseAnd | BitwiseOr | Xor => Ok l
   | Partition =>
       match iter_element l with
-      | Some e => Ok (TTup [TArr e; TArr e]) | None => Panic end
+      | Some e => Ok (TTup [TArr e; TArr e]) | None => Ok (TTup [TArr TNever; TArr TNever]) end
   | Map =>
       match fn_return_type r with
-      | Some e => Ok (TFun [] (TTup [TBool; e])) | None => Panic end
+      | Some e => Ok (TFun [] (TTup [TBool; e])) | None => Ok (TFun [] (TTup [TBool; TNever])) end
   | At => lift_opt (index_result l)
   | FunctionCall => lift_opt (fn_return_type l)
   | Assign => Ok r
@@ -29,8 +30,8 @@ Definition un_rt (op : unop) (t : ty) : oty :=
   | UNot | UUnaryMinus => Ok t
   | UIndirection => lift_opt (mut_element_type_spec t)
   | UFunctionCall => lift_opt (fn_return_type t)
-  | UCollect => match iter_element t with Some e => Ok (TArr e) | None => Panic end
-  | UIter => match element_type t with Some e => Ok (TFun [] (TTup [TBool; e])) | None => Panic end
+  | UCollect => match iter_element t with Some e => Ok (TArr e) | None => Ok (TArr TNever) end
+  | UIter => match element_type t with Some e => Ok (TFun [] (TTup [TBool; e])) | None => Ok (TFun [] (TTup [TBool; TNever])) end
   | UAll | UAny | UBitAnd | UBitOr | UReturn => Ok TNever
   end.
 
